@@ -55,7 +55,11 @@ class Matcher:
         cls.matches = matches
 
     def bit(self, sig, content):
-        return self.bits.get((id(sig), content), False)
+        """the match bit of (sig, content); if the membrane never evaluated it, it is unconstrained (fresh)"""
+        key = (id(sig), content)
+        if key not in self.bits:
+            self.bits[key] = self.c.fresh_bool("match")
+        return self.bits[key]
 
 
 def membrane_history(k, ops=None):
@@ -67,7 +71,7 @@ def membrane_history(k, ops=None):
     return h
 
 
-ALL_OPS = ["filter_x", "filter_y", "learn", "forget", "import", "relax_threshold", "add_signature", "advance"]
+ALL_OPS = ["filter_x", "filter_y", "learn", "forget", "import", "relax_threshold", "tighten_threshold", "add_signature", "advance"]
 
 
 def _membrane(c, k, ops=None):
@@ -128,6 +132,9 @@ def _membrane(c, k, ops=None):
         if op == "relax_threshold":
             m.set_threshold(ThreatLevel.CRITICAL)
             continue
+        if op == "tighten_threshold":
+            m.set_threshold(ThreatLevel.SUSPICIOUS)
+            continue
         if op == "add_signature":
             sig = ThreatSignature("custom-pattern", c.choice(f"lvl{i}", LEVELS[1:]), "custom")
             m.add_signature(sig)
@@ -160,7 +167,10 @@ def _membrane(c, k, ops=None):
         # C10.c blocked before => stays blocked, whatever was relaxed since
         if was_blocked:
             c.check("C10.c", is_false(r.allowed), {"what": "input blocked earlier is allowed after rules were relaxed", **info})
-        if scanned:
+        # a decision taken WITHOUT evaluating the live signatures on this content is only acceptable when it blocks
+        # (rate limit, replay memory): an input that is let through is judged against every live signature, whose
+        # match bit is unconstrained if the membrane never looked at it
+        if scanned or not (isinstance(r.allowed, bool) and not r.allowed):
             hit = [s for s in active if s in m.signatures or s in m._learned_patterns.values()]
             # C10.a allowed only if no active signature at or above the threshold matches
             viol = False
